@@ -90,6 +90,9 @@ def make_grid(style: str, nt: int, tend: float, rng) -> np.ndarray:
     if style == "drift":  # every increment a few parts per million longer than the last
         d = (tend / nt) * (1 + 4e-6) ** np.arange(nt - 1)
         return np.concatenate([[0.0], np.cumsum(d)])
+    if style == "nearuniform":  # increments that differ by a few parts per billion (second differences ~1e-11)
+        d = (tend / nt) * (1 + 3e-9 * np.arange(nt - 1))
+        return np.concatenate([[0.0], np.cumsum(d)])
     if style == "tiny":  # tiny increments that double
         d = 1e-13 * 2.0 ** np.arange(nt - 1)
         return np.concatenate([[0.0], np.cumsum(np.minimum(d, tend))])
